@@ -33,7 +33,7 @@ def run_impl(lines):
 
 
 def model_line(l):
-    return "0 |" if l.startswith("101 ") else l
+    return "0 |" if l.startswith("101 ") else G.life_model_line(l)
 
 
 def compare(l, impl_rows, model_rows):
